@@ -130,7 +130,7 @@ def summarise(pid, results, meta, tier, t0):
         lines.append('KNOWN-FINDING: property=%s %s [%s]' % (pid, k.get('what', r['detail'][:200]), r['finding_key']))
     # a refuted obligation whose counter-model has no native observable borrows the concrete failing input that the
     # run-time contract of the same property found on the same tree in this run (if any)
-    native = [b for b in bounded if b['verdict'] == 'failed' and (b['witness'] or {}).get('cases')]
+    native = [b for b in bounded if b['verdict'] == 'failed' and (b['witness'] or {}).get('cases') and b['finding_key'] not in known_keys]
     for r in violations:
         if r['kind'] != 'bounded' and not (r['witness'] and r['witness'].get('replayed')) and native:
             w = dict(r['witness'] or {})
